@@ -222,4 +222,44 @@ CHECKS["C24"] = dict(
     design_ref="DESIGN.md §4 C24",
 )
 
+CHECKS["C17"] = dict(
+    category='exploration',
+    technique='grammar-based adversarial fuzzing (enumerated core + Hypothesis draws) of sandbox escape attempts against tracer/sentinel probe objects, plus an AST check of the generated Python',
+    text='31 access primitives (dot, subscript, |attr, attribute arguments of map/select/sort/groupby/unique/sum/min/max/join, dotted and comma paths, str.format / format_map / Markup.format field paths, stored bound format methods, ...) x ~50 engine and 30 data receivers x their private/internal names (dir()-introspected plus a dunder list; mro, gi_*, cr_*, ag_* and code/frame/traceback attributes) x ~25 consumptions x SandboxedEnvironment/ImmutableSandboxedEnvironment x sync/async x autoescape: no private or internal attribute value may be used, printed or found defined (tracer records every dunder use; internals carry a sentinel); outcome must be output, SecurityError or UndefinedError; the compiled code of every program and of broad statement programs may contain no ast.Attribute rooted outside the surveyed internal names. A control render in an unsandboxed Environment proves each probe is live. 86k cases quick, 1.2M thorough; 15/15 mutants killed.',
+    note='Property getters may run during lookup; container items are not attributes; the allowed-root list reflects the current code generator; public-but-internal classification hardcoded in the harness (not read from the code under test).',
+    design_ref="DESIGN.md §4 C17",
+)
+
+CHECKS["C18"] = dict(
+    category='exploration',
+    technique='enumerated and Hypothesis-drawn call-path programs with recording callables, reachability-by-construction oracle, AST check that template values are never called directly',
+    text='61 call paths (direct, attribute, set/with alias, macro argument, caller, loop variable, list/dict element, filter/test argument then call, call-block target, macro default, ...) x 21 callable spellings (@unsafe, alters_data, rejected by an overridden is_safe_callable, safe) x 6 argument shapes x 9 reachability wrappers x default/overriding is_safe_callable x sync/async: an unsafe callable is never invoked (recorder log empty), SecurityError is raised exactly when its site is reached, safe callables at reached sites are invoked. 45k cases quick, 1.9M thorough (full product); 6/6 mutants killed.',
+    note='Reachability is known from the wrapper; functools.partial-style wrappers that hide the marking and harness filters that call their argument are out of scope.',
+    design_ref="DESIGN.md §4 C18",
+)
+
+CHECKS["C19"] = dict(
+    category='exploration',
+    technique='complete enumeration of dir() of list/dict/set/deque x argument shapes x routes and of every built-in filter x container values, plus Hypothesis-drawn nested containers, with a deep before/after comparison of the context',
+    text="Every public and dunder method name of the four exact builtin types (computed from the running interpreter) x 24 argument shapes x 18 routes (direct, alias, |attr, map('attr'), format lookups, ...) x sync/async, and every built-in filter x 11 container values x single-argument variations over its signature, in ImmutableSandboxedEnvironment: a deep snapshot of the context (exact types, order, deque maxlen) must be unchanged, mutating calls end in output, SecurityError or UndefinedError, and every documented mutator is seen mutating in plain Python (generator floor). 298k cases quick, 2.3M thorough; 9/9 mutants killed incl. reverting F6/F7, F8, F34; found F34.",
+    note='Only exact builtin types are in the context; filters given nonsense arguments may raise ordinary exceptions (the data comparison runs regardless).',
+    design_ref="DESIGN.md §4 C19",
+)
+
+CHECKS["C29"] = dict(
+    category='exploration',
+    technique='differential-in-time property test with deep input snapshots: generated interleaved render histories vs. first isolated render, plus a thread stress part',
+    text="Generated fragment / G-stmt / template-set cases (container-argument filters incl. sum(start=list), default, batch/slice fill values, sort, map, groupby, unique, reverse, list, items, dictsort, copy-then-mutate, namespaces, cyclers, joiners, loop state, cached and with-context imports): every step of a generated interleaved history (>=3 renders per template over 8 sync / 7 async entry points and 2 data assignments) must equal that template's first render on a fresh environment, and after every step deep snapshots of data, environment globals and every template's globals must be unchanged; 15% of cases repeat the steps from 8-16 threads with setswitchinterval(1e-6) (reports overlapping renders and observed switches). 4.5k histories quick, 51k thorough; 9/9 non-equivalent mutants killed incl. F8.",
+    note='Templates only call methods on objects they created themselves; errors compared by class, object addresses normalised; the thread part explores schedules only by chance; F54 (top-level mutable objects of a cached imported module are shared between renders) is a listed known finding excluded by construction.',
+    design_ref="DESIGN.md §4 C29",
+)
+
+CHECKS["C31"] = dict(
+    category='exploration',
+    technique='differential property-based test: compile_templates + ModuleLoader vs. DictLoader on Hypothesis-generated template sets',
+    text='Generated sets (G-inherit hierarchies or G-modules sets, optional G-stmt program with an importing wrapper, feature snippets, names renamed to path-like / non-ASCII / brace names) are compiled with compile_templates in all three zip modes into a per-case scratch target and loaded through ModuleLoader in 7 forms (str / Path / list / empty first dir / split targets / ChoiceLoader before or after a source loader), sync and async, with drawn options (autoescape, sandbox, immutable sandbox, optimized off, finalize, cache off, undefined types, i18n): every template x 2 data assignments must give the same text or exception class as a DictLoader environment with identical options, the same make_module exports and block names; also one tmpl_<sha1>.py per selected template, ignore_errors semantics, no sys.modules leak. 5.1k sets quick, 58k thorough; 5/5 design mutants + 4 more killed.',
+    note='Both sides share the environment options; blind to bugs common to both paths.',
+    design_ref="DESIGN.md §4 C31",
+)
+
 NOT_YET = "check not built yet in this session (see DESIGN.md §8 for the order of work)"
